@@ -376,6 +376,8 @@ let monitor_line prop line =
        (match parse_edits_obs obs with
         | None -> "FAIL implementation did not return: " ^ obs
         | Some o -> verdict (mon_C18 (parse_edits rest) o) "execution order is not the edited list (or an invalid directive was accepted / a valid one rejected)")
+     | "C04", _ when String.length obs >= 4 && (String.sub obs 0 4 = "HANG" || String.sub obs 0 4 = "PANI") ->
+       "FAIL the call did not return an error or a result: " ^ obs
      | _, "K" :: rest -> monitor_chain prop rest obs
      | _, "PAIR" :: _ -> monitor_pair prop case obs
      | _ -> "PASS (no monitor for this stream)")
